@@ -165,6 +165,13 @@ namespace {
                 live.pop_back();
                 break;
             }
+        if (t.dirt & 4)
+        {
+            // an interruption request that is never delivered (no interruption point follows): the next user
+            // of this thread object must not inherit it
+            pika::threads::detail::get_thread_id_data(pika::threads::detail::get_self_id())->interrupt(true);
+            probe("left_interruption_requested");
+        }
         if (t.dirt & 1)
         {
             // leave interruption disabled: the next user of this thread object must not inherit it
@@ -212,7 +219,7 @@ namespace {
                 op.v[1] = r.range(10, 1000);
                 op.v[2] = r.range(4, 64);
                 op.v[3] = r.range(0, 5);
-                op.v[4] = r.chance(1, 3) ? (int64_t) r.below(4) : 0;
+                op.v[4] = r.chance(1, 3) ? (int64_t) r.below(8) : 0;
                 op.v[5] = r.chance(1, 3) ? (int64_t) r.below(4) : 0;
                 p.push_back(op);
             }
@@ -238,7 +245,7 @@ namespace {
             t.depth = (int) (op.v[1] < 1 ? 1 : op.v[1] > 1000 ? 1000 : op.v[1]);
             t.frame_words = (int) (op.v[2] < 1 ? 1 : op.v[2] > 64 ? 64 : op.v[2]);
             t.yields = (int) (op.v[3] & 7);
-            t.dirt = (int) (op.v[4] & 3);
+            t.dirt = (int) (op.v[4] & 7);
             t.fp_mode = (int) (op.v[5] & 3);
             ex::execute(ex::with_stacksize(ex::thread_pool_scheduler{}, classes[t.cls]), [i] { task_body(i); });
             if ((i + 1) % wave == 0) pika::wait();
